@@ -238,7 +238,113 @@ class C02(StreamProp):
             res.distribution["lazy.err=" + v.split(":")[1]] += 1
 
 
-REGISTRY = {"C02": C02()}
+# ------------------------------------------------------------------------------------------
+# C20
+
+def parse_err(v):
+    """E:<hexmsg>:<off>:<line>:<col>:<cat>:<disp>[:latchN] | OK | END[:latchN] | PANIC"""
+    parts = v.split(":")
+    d = {"kind": parts[0]}
+    for p_ in parts:
+        if p_.startswith("latch"):
+            d["latch"] = int(p_[5:])
+    if parts[0] == "E" and len(parts) >= 7:
+        msg = unhex(parts[1]).decode("utf-8", "replace")
+        d.update(code=msg_table().get(msg, "Message"), off=int(parts[2]), line=int(parts[3]), col=int(parts[4]),
+                 cat=parts[5], disp=parts[6])
+    return d
+
+
+class C20(Prop):
+    rule = ("generated multi-line documents (top-level object with members x, a, b so that lookups descend), each with one random "
+            "mutation, one random truncation, and concatenations of several documents (streams); every error-returning entry point is "
+            "run on every case; a case is non-trivial when at least one entry point returns an error with offset > 0")
+    trusted = ["the line/column oracle is Spec.position evaluated by the compiled Lean driver on the offset the implementation reported"]
+    assumptions = ["serde-generated (custom message) errors are positioned by Parser::fix_position; their wording is not compared"]
+    LOOKUPS = {"get_a", "get_0", "get_b1", "get_root", "getu_a", "getu_0", "get_many", "get_a_str"}
+
+    def explore(self, ctx, res):
+        name = "c20"
+        cases_path = generate(ctx, name)
+        impl_path = cases_path + ".impl"
+        rc, err = ctx["run_lines"](ctx["vh"], [name, "run"], cases_path, impl_path)
+        with open(cases_path) as f:
+            cases = f.read().splitlines()
+        with open(impl_path, errors="replace") as f:
+            impl = f.read().splitlines()
+        if rc != 0 or len(impl) != len(cases):
+            idx = min(len(impl), len(cases) - 1)
+            res.oracle_failures.append(dict(key="c20:process-abort", case=cases[idx], detail=f"harness died after {len(impl)} cases: {err[-300:]}"))
+        n = min(len(impl), len(cases))
+        parsed = []
+        q_path = cases_path + ".query"
+        with open(q_path, "w") as q:
+            for i in range(n):
+                I = ctx["parse_fields"](impl[i])
+                E = {k: parse_err(v) for k, v in I.items()}
+                parsed.append(E)
+                offs = sorted({e["off"] for e in E.values() if e["kind"] == "E"})
+                q.write(f"{cases[i]} {','.join(map(str, offs)) if offs else '-'}\n")
+        model = None
+        if ctx["driver"]:
+            model_path = cases_path + ".model"
+            ctx["run_lines"](ctx["driver"], [], q_path, model_path)
+            with open(model_path, errors="replace") as f:
+                model = f.read().splitlines()
+        for i in range(n):
+            res.evaluations += 1
+            case = cases[i]
+            t = unhex(case.split(" ")[1])
+            E = parsed[i]
+            M = ctx["parse_fields"](model[i]) if model and i < len(model) else {}
+            pos = {}
+            if M.get("pos", "-") != "-":
+                for item in M["pos"].split(","):
+                    o, l, c, l2, c2, sn = item.split(":")
+                    pos[int(o)] = (int(l), int(c), int(l2), int(c2), sn)
+            if len(res.samples) < 6 and i % max(1, n // 6) == 0:
+                res.samples.append({"case": case[:200], "impl": impl[i][:400], "model": (model[i][:200] if model and i < len(model) else None)})
+            if any(e["kind"] == "E" and e["off"] > 0 for e in E.values()):
+                res.nontrivial(case)
+            for ep, e in E.items():
+                if e["kind"] == "PANIC":
+                    res.oracle_failures.append(dict(key=f"C20|{ep}|panic", case=case, detail="entry point panicked"))
+                    continue
+                if e.get("latch", 0) != 0:
+                    res.oracle_failures.append(dict(key=f"C20|{ep}|yields-after-end-or-error", case=case, detail=f"{e['latch']} extra items after the end/error"))
+                if e["kind"] == "NOEND":
+                    res.oracle_failures.append(dict(key=f"C20|{ep}|never-ends", case=case, detail="more than 100000 items"))
+                if e["kind"] != "E":
+                    continue
+                res.distribution[f"{ep}:{e['code']}"] += 1
+                if e["disp"] != "d":
+                    res.oracle_failures.append(dict(key=f"C20|{ep}|display-panics", case=case, detail=str(e)))
+                if e["off"] > len(t):
+                    res.oracle_failures.append(dict(key=f"C20|{ep}|offset-beyond-input", case=case, detail=f"offset {e['off']} > len {len(t)}"))
+                    continue
+                if e["off"] in pos:
+                    l, c, l2, c2, sn = pos[e["off"]]
+                    if (l, c) != (l2, c2):
+                        res.model_disagreements.append(dict(key="c20:Position.from_index-vs-Spec.position", case=case, detail=f"off {e['off']}"))
+                    if sn != "s":
+                        res.model_disagreements.append(dict(key="c20:snippet-model-fault", case=case, detail=f"off {e['off']}"))
+                    if (e["line"], e["col"]) != (l, c):
+                        res.oracle_failures.append(dict(key=f"C20|{ep}|line-col-not-those-of-offset", case=case,
+                                                        detail=f"{e['code']} offset {e['off']} reported line {e['line']} col {e['col']}, spec {l}:{c}"))
+                if e["cat"] == "NotFound" and ep not in self.LOOKUPS:
+                    res.oracle_failures.append(dict(key=f"C20|{ep}|notfound-outside-lookup", case=case, detail=str(e)))
+            # correspondence: LazyValue entry point, code + offset + line + col
+            if "m.lazy" in M and "lazy" in E:
+                e = E["lazy"]
+                got = f"R:{e['code']}:{e['off']}:{e['line']}:{e['col']}" if e["kind"] == "E" else "A"
+                want = M["m.lazy"]
+                if want.startswith("A:"):
+                    want = "A"
+                if got != want:
+                    res.model_disagreements.append(dict(key="c20:lazy", case=case, detail=f"impl {got} model {want}"))
+
+
+REGISTRY = {"C02": C02(), "C20": C20()}
 
 
 def get(pid):
